@@ -22,11 +22,13 @@ package health
 
 //@ func (*Server).validateToken
 //@ prop C24
+//@ modifies s.cachedTokenSHA, s.tokenCacheValid
 //@ check lockset bounds
 //@ ensures result ==> bcryptOK(s.cfg.TokenHash, token)
 
 //@ func (*Server).requireAuth$1
 //@ prop C24
+//@ modifies *
 //@ after call validateToken let validated = $ret
 //@ after call extractBearerToken let tok = $ret
 //@ at call ServeHTTP assert old(has(authExemptPaths, r.URL.Path) && authExemptPaths[r.URL.Path]) || (tok != "" && validated)
@@ -41,6 +43,7 @@ package health
 
 //@ func NewServer
 //@ prop C24
+//@ modifies *
 //@ at call HandleFunc assert ($1 == "/agents" || $1 == "/agents/" || $1 == "/routes/advertise" || $1 == "/routes/manage" || $1 == "/forward/manage" || $1 == "/display-name/manage" || $1 == "/sleep" || $1 == "/sleep/status" || $1 == "/wake") ==> cfg.EnableRemoteAPI || isfunc($2, "disabledHandler$1")
 //@ at call HandleFunc assert ($1 == "/api/topology" || $1 == "/api/dashboard" || $1 == "/api/nodes" || $1 == "/api/mesh-test" || $1 == "/api/") ==> cfg.EnableDashboard || isfunc($2, "disabledHandler$1")
 //@ at call HandleFunc assert ($1 == "/debug/pprof/" || $1 == "/debug/pprof/cmdline" || $1 == "/debug/pprof/profile" || $1 == "/debug/pprof/symbol" || $1 == "/debug/pprof/trace" || $1 == "/debug/") ==> cfg.EnablePprof || isfunc($2, "disabledHandler$1")
